@@ -89,6 +89,12 @@ class VariantSurface(core.Surface):
 
     def model(self, rn, x):
         m = self.e2e.model(rn, {"template": x["template"], "extra": x["extra"]})
+        if m[0] == "EXC" and m[1] == "EUndefined":
+            # the model declines this template (ill-typed somewhere): the property is still about the implementation's OWN
+            # invariance, so compare the variant with the implementation on the original template
+            m = tplgen.impl_e2e({"template": x["template"], "extra": x["extra"]})
+            if m[0] != "OK":
+                return ("EXC", "EUndefined", "")
         if m[0] == "OK":
             ids = self.keep_ids(x)
             out = {"Resources": {k: v for k, v in m[1]["Resources"].items() if k in ids}}
@@ -116,7 +122,8 @@ PERM = VariantSurface("perm", "C07_resources_perm / C07_params_perm / C07_condit
 RESTRICT = VariantSurface("restrict", "C07_restrict / C07_resource_local")
 EXTEND = VariantSurface("extend", "C07_resource_local / C07_sub_scope")
 E2E = tplgen.E2ESurface("C07_resource_local")
-SURFACES = {s.name: s for s in (PERM, RESTRICT, EXTEND, E2E)}
+SEQ = tplgen.SequenceE2ESurface("C07_env_lookups_only / C07_condition_position_free (each call is a function of its own arguments)")
+SURFACES = {s.name: s for s in (PERM, RESTRICT, EXTEND, E2E, SEQ)}
 
 
 def corpus():
@@ -158,3 +165,6 @@ def cases(rng, tier, shard, nshards):
             yield RESTRICT, y
         if k % 3 == 0:
             yield E2E, {"template": x["template"], "extra": x["extra"]}
+        if k % 2 == 1:
+            e2 = tplgen.vary_extra(rng, x)
+            yield SEQ, {"template": x["template"], "extras": [x["extra"], e2, x["extra"]][: rng.choice([2, 3])]}
